@@ -27,6 +27,9 @@ DECIDED = [
     'an iteration, and on the initial state (x = 0, t = 0) it returns exactly (time, position, velocity, mach) given',
     'R4 a time row is due exactly when time > time of the last record + time step, is flagged RANGE, and the test runs '
     'whenever no range row is due',
+    'R5 no row is created outside the recording call, the terminal row of a range error and the after-loop fallback, '
+    'whose guard is false (evaluated) as soon as the card has two rows: nothing appends the final integration state, '
+    'which lies on no multiple of the step, to an ordinary card',
 ]
 NOT_DECIDED = ['the number of rows, one row per multiple, strict monotonicity, the behaviour of the loop bound under '
                'head / tail wind, the time-step spacing bound: all depend on the runtime sequence of integration points']
@@ -342,6 +345,61 @@ def run(prog: Program, rep, thorough: bool) -> None:
                  '; '.join(sorted(set(probs))[:2]) or 'no row is produced at the muzzle')
     else:
         rep.ok('C03.R3', sr.where, 'at x = 0, t = 0 the sample returned is exactly the initial (time, position, velocity, mach)')
+    check_extra_rows(prog, rep, F, 'C03.R5')
+
+
+def check_extra_rows(prog: Program, rep, F: IntegrateFacts, rule: str) -> None:
+    """Rows come from the recording call only.  A row built after the loop (from the final integration state, which
+    lies on no multiple of the step) is allowed only as the fallback for a card with fewer than two rows: its guard,
+    evaluated for 2, 3, 7 and 100 rows already present, must be false."""
+    from .c16 import truth_at
+    rep.rule(rule, 'no row outside the recording call except the fewer-than-two-rows fallback', 1)
+    tc = F.mod
+    cd = F.cfg.control_dependence()
+    ev = Evaluator(prog)
+    n_post = 0
+    for call in F.row_calls:
+        if F._inside(call, F.loop):
+            continue
+        node = F.cfg.node_of(call)
+        if node is None:
+            continue                  # inside a nested function: C05.R4 reports those
+        if node.line < F.loop.lineno:
+            rep.fail(rule, tc.path, call.lineno, F.func.qualname, 'row-before-loop',
+                     'a row is built before the integration loop, outside the recording call')
+            continue
+        n_post += 1
+        app = getattr(call, '_parent', None)
+        lst = app.func.value.id if isinstance(app, ast.Call) and isinstance(app.func, ast.Attribute) \
+            and isinstance(app.func.value, ast.Name) else None
+        guards = [(F.cfg.nodes[t], lab) for t, lab in cd[node.id]]
+        verdict = None
+        if not guards:
+            verdict = 'is unconditional'
+        for g, lab in guards:
+            st = State({lst or 'ranges': SymObj('rows')})
+            for n_ in ast.walk(g.ast):
+                if isinstance(n_, ast.Name) and isinstance(n_.ctx, ast.Load) and n_.id not in st.env and n_.id not in ('len', 'bool'):
+                    st.env[n_.id] = S(f'${n_.id}')
+            try:
+                tv = ev.eval(g.ast, st, Ctx(tc, F.func, None, 0))
+            except Undecided as exc:
+                raise AnalysisError(f'post-loop row guard `{g.text()[:50]}`: {exc}') from exc
+            for k in (2, 3, 7, 100):
+                tr = truth_at(ev, tv, {'len(rows)': float(k)})
+                want_false = (lab == 'T')
+                if tr is None or tr is want_false:
+                    verdict = (f'is guarded by `{g.text()[:70]}`, which {"can hold" if tr is None else "holds"} when the card '
+                               f'already has {k} rows')
+                    break
+        if verdict:
+            rep.fail(rule, tc.path, call.lineno, F.func.qualname, 'extra-row',
+                     f'the row built after the loop at line {call.lineno} {verdict}: a row at the final integration state, '
+                     f'which lies on no multiple of the recording step, is added to an ordinary range card')
+        else:
+            rep.ok(rule, tc.where(call), 'the row after the loop is the fallback for a card with fewer than two rows')
+    if n_post == 0:
+        rep.ok(rule, tc.where(F.loop), 'no row is built after the loop')
 
 
 def _after(F: IntegrateFacts, rn, n) -> bool:
@@ -358,6 +416,9 @@ def _after(F: IntegrateFacts, rn, n) -> bool:
 TCF = 'py_ballisticcalc/trajectory_calc/_trajectory_calc.py'
 IFF = 'py_ballisticcalc/interface.py'
 VARIANTS = [
+    Variant('final-state-row-appended', 'break', [(TCF, '        # Ensure that we have at least two data points in trajectory\n', '        if ranges and maximum_range - (ranges[-1].distance >> Distance.Foot) > min_step:\n            ranges.append(create_trajectory_row(\n                time, range_vector, velocity_vector,\n                velocity, mach, self.spin_drift(time), self.look_angle,\n                density_factor, drag, self.weight, TrajFlag.RANGE))\n        # Ensure that we have at least two data points in trajectory\n')], 'C03.R5', 'seeded change C03/4'),
+    Variant('fallback-row-unconditional', 'break', [(TCF, '        if len(ranges) < 2:\n            ranges.append(create_trajectory_row(', '        if len(ranges) < 2 or True:\n            ranges.append(create_trajectory_row(')], 'C03.R5'),
+    Variant('twin-fallback-le-one', 'twin', [(TCF, '        if len(ranges) < 2:\n            ranges.append(create_trajectory_row(', '        if len(ranges) <= 1:\n            ranges.append(create_trajectory_row(')], None),
     Variant('default-step-eleventh', 'break', [(IFF, 'trajectory_step = trajectory_range.raw_value / 10.0', 'trajectory_step = trajectory_range.raw_value / 11.0')], 'C03.R1', 'positive control', 'caught'),
     Variant('default-step-display-value', 'break', [(IFF, 'trajectory_step = trajectory_range.raw_value / 10.0', 'trajectory_step = trajectory_range.unit_value / 10.0')], 'C03.R1', 'display value stored as inches'),
     Variant('ratio-against-wrong-end', 'break', [(TCF, 'ratio = (self.next_record_distance - self.previous_position.x) / (position.x - self.previous_position.x)', 'ratio = (position.x - self.next_record_distance) / (position.x - self.previous_position.x)')], 'C03.R2'),
